@@ -6,7 +6,7 @@ use std::fmt;
 /// The borrowed form of a key (`Q`): same data, its own `PartialEq`.
 #[repr(C)]
 pub struct Probe {
-    pub cls: u8,
+    pub cls: u16,
     pub id: u32,
 }
 
@@ -21,11 +21,11 @@ pub struct Val {
 }
 
 impl Key {
-    pub fn new(cls: u8, id: u32) -> Key {
+    pub fn new(cls: u16, id: u32) -> Key {
         ctl::created(Kind::K, id);
         Key { p: Probe { cls, id } }
     }
-    pub fn probe(cls: u8, id: u32) -> Key {
+    pub fn probe(cls: u16, id: u32) -> Key {
         ctl::created_probe(Kind::K, id);
         Key { p: Probe { cls, id } }
     }
@@ -203,7 +203,7 @@ mod serde_impls {
             let w = u64::deserialize(d)?;
             let id = fresh();
             ctl::created(Kind::K, id);
-            Ok(Key { p: Probe { cls: (w >> 32) as u8, id } })
+            Ok(Key { p: Probe { cls: (w >> 32) as u16, id } })
         }
     }
     impl Serialize for Val {
